@@ -194,11 +194,22 @@ Proof. repeat split; reflexivity. Qed.
    pieces, are the model functions - for all inputs *)
 Theorem C04_apply_to_file_is_source : forall H A L W tsw c since pos0,
   ap_interp apply_seek_sites (lenZ c) pos0 (run H A L W tsw c since pos0)
-            (try_of (calls_only_list tk_apply_to_file))
+            true (try_of (calls_only_list tk_apply_to_file))
   = apply_to_file H A L W tsw c since pos0.
 Proof.
   intros. rewrite C04_shape_apply_to_file_try, C04_src_seek_sites.
   apply ap_interp_correct.
+Qed.
+
+(* destructive=False: a successful search puts the file back where it was,
+   the four give-up handlers still seek to 0 / the end of the file *)
+Theorem C04_apply_to_file_nd_is_source : forall H A L W tsw c since pos0,
+  ap_interp apply_seek_sites (lenZ c) pos0 (run H A L W tsw c since pos0)
+            false (try_of (calls_only_list tk_apply_to_file))
+  = apply_to_file_nd H A L W tsw c since pos0.
+Proof.
+  intros. rewrite C04_shape_apply_to_file_try, C04_src_seek_sites.
+  apply ap_interp_correct_nd.
 Qed.
 
 Theorem C04_run_is_source : forall H A L W tsw c since pos0,
@@ -306,6 +317,7 @@ Print Assumptions C04_real_since_seek_exact.
 Print Assumptions C04_no_skip_no_old.
 Print Assumptions C04_first_in_window_is_declarative.
 Print Assumptions C04_apply_to_file_is_source.
+Print Assumptions C04_apply_to_file_nd_is_source.
 Print Assumptions C04_run_is_source.
 Print Assumptions C04_getitem_is_source.
 Print Assumptions C04_seeker_init_is_source.
